@@ -39,6 +39,11 @@ func init() {
 			{"twoPartyHandlerLocks", "first two statements of every exported TwoPartyHandler method", lockTable("pkg/protocol/twoparty.go", "TwoPartyHandler")},
 			{"multiHandlerStop", "MultiHandler.Stop: guards and calls", append(guardsIn("pkg/protocol/handler.go", "MultiHandler.Stop"), callsIn("pkg/protocol/handler.go", "MultiHandler.Stop", `abort`)...)},
 			{"twoPartyHandlerStop", "TwoPartyHandler.Stop: guards and calls", append(guardsIn("pkg/protocol/twoparty.go", "TwoPartyHandler.Stop"), callsIn("pkg/protocol/twoparty.go", "TwoPartyHandler.Stop", `abort`)...)},
+			{"receivedAllEcho", "MultiHandler.receivedAll: how the echo hash of a round is computed", callsIn("pkg/protocol/handler.go", "MultiHandler.receivedAll", `Hash|WriteAny|Sum`)},
+			{"receivedAllRanges", "MultiHandler.receivedAll: whose messages are required / hashed", rangesIn("pkg/protocol/handler.go", "MultiHandler.receivedAll")},
+			{"checkBroadcastHash", "MultiHandler.checkBroadcastHash guards", guardsIn("pkg/protocol/handler.go", "MultiHandler.checkBroadcastHash")},
+			{"checkBroadcastHashRanges", "MultiHandler.checkBroadcastHash: which queues are compared", rangesIn("pkg/protocol/handler.go", "MultiHandler.checkBroadcastHash")},
+			{"finalizeEcho", "MultiHandler.finalize: the echo check precedes the round's Finalize", callsIn("pkg/protocol/handler.go", "MultiHandler.finalize", `receivedAll|checkBroadcastHash|Finalize|abort`)},
 			{"isFor", "Message.IsFor", append(guardsIn("pkg/protocol/message.go", "Message.IsFor"), returnsIn("pkg/protocol/message.go", "Message.IsFor")...)},
 		}
 	})
